@@ -68,7 +68,15 @@ fn exec_inner(st: &mut St, cmd: &str) -> String {
     let toks: Vec<&str> = cmd.split_whitespace().collect();
     match toks[0] {
         "inew" | "ixor" | "iadd" | "ichg" | "iprep" | "isym" | "igate" => crate::interp::exec(&mut st.i, &toks),
-        "imark" | "isame" | "iexpect" | "isnap" | "iunchanged" | "iexprval" => String::new(),
+        "imark" | "isame" | "iexpect" | "isnap" | "iunchanged" => String::new(),
+        "iexprval" => {
+            // the implementation's own rz(value) on the probe state
+            let v = f64::from_bits(toks[1].parse().unwrap());
+            let mut q = QReg::new(1);
+            q.verif_set_psi(crate::interp::probe_state(1));
+            q.apply(&op::rz(v, 1));
+            cvec(q.verif_psi())
+        }
         "op" => {
             let prog = ops::parse_prog(&toks[1..].join(" ")).expect("bad op program");
             let b = ops::build(&prog);
